@@ -316,7 +316,7 @@ class EditStream(HTMLHandlerBase):
     def post(self, mps_name: str) -> flask.Response:
         data = flask.request.json
         if not data:
-            logging.waring('JSON payload missing')
+            logging.warning('JSON payload missing')
             return jsonify_no_content(400)
         csrf_key = self.generate_csrf_cookie()
         csrf_token = self.generate_csrf_token('streams', csrf_key)
